@@ -177,7 +177,7 @@ theorem sched_pending_mono (w : World) (a s : Nat) (sig t pri : Int) (e : HTag) 
 theorem guardSignal_inv (P : World → Prop)
     (hfail : ∀ w m, P w → P (World.fail w m))
     (hq : ∀ w g q, P w → P (setGuardQ w g q))
-    (hs : ∀ w a s sig t pri, P w → P (sched w a s sig t pri).1) :
+    (hs : ∀ w s t pri, P w → P (sched w aRes s sigSuccess t pri).1) :
     ∀ fuel w g, P w → P (guardSignal fuel w g) := by
   intro fuel
   induction fuel with
@@ -193,12 +193,12 @@ theorem guardSignal_inv (P : World → Prop)
       all_goals first
         | exact h
         | exact hfail _ _ h
-        | exact hs _ _ _ _ _ _ (hq _ _ _ h)
+        | exact hs _ _ _ _ (hq _ _ _ h)
 
 theorem signal_pending_mono (w : World) (g : Nat) (e : HTag) (he : e ∈ w.ev.pending) :
     e ∈ (signal w g).ev.pending :=
   guardSignal_inv (fun w => e ∈ w.ev.pending) (fun w m h => by simpa using h) (fun w g q h => h)
-    (fun w a s sig t pri h => sched_pending_mono w a s sig t pri e h) 8 w g he
+    (fun w s t pri h => sched_pending_mono w aRes s sigSuccess t pri e h) 8 w g he
 
 /-- **signalling a guard whose front waiter's demand is satisfied schedules that waiter's resumption** with the
     success code at the current time (and takes it off the waiting list) -/
@@ -216,7 +216,7 @@ theorem signal_grants_front (w : World) (g : Nat) (gd : Guard) (hg : w.guards[g]
             d := (setGuardQ w g q').now, i := ((setGuardQ w g q').proc (t.key - 1)).prio }, ?_, rfl, rfl, rfl, rfl, ?_⟩
   · apply foldl_inv (fun w' => _ ∈ w'.ev.pending) _
       (fun w' o hw' => guardSignal_inv (fun w => _ ∈ w.ev.pending) (fun w m h => by simpa using h) (fun w g q h => h)
-        (fun w a s sig t pri h => sched_pending_mono w a s sig t pri _ h) 7 w' o hw')
+        (fun w s t pri h => sched_pending_mono w aRes s sigSuccess t pri _ h) 7 w' o hw')
     rw [hs.2.1]
     exact List.mem_cons_self
   · simp
